@@ -44,8 +44,9 @@ def replay_file(path, repo):
     prop = data["property"]
     hs = load_property(prop)
     if data.get("kind") == "bounded":
-        mod = sys.modules["contracts.%s" % prop]
-        ok, detail = mod.replay_bounded(data)
+        import importlib
+        mod = importlib.import_module("bounded.%s" % prop)
+        ok, detail = mod.replay(data["case"])
         print("replay %s: %s %s" % (data.get("obligation"), "holds" if ok else "FAILS", detail))
         if not ok:
             print("VIOLATION property=%s replay=%s" % (prop, path))
@@ -213,7 +214,7 @@ def finish(prop, tier, seed, repo, hs, results, extra, wall, args):
         baseline_all[prop] = {o["name"]: {"status": o["status"], "havoc": o["havoc"], "kind": o["kind"], "tier": hmap[o["harness"]].tier} for o in ob_rows}
         with open(BASELINE, "w") as fh:
             json.dump(baseline_all, fh, indent=1, sort_keys=True)
-    if not args.only:
+    if not args.only and not os.environ.get("VCHECK_NO_EVIDENCE"):
         write_evidence(prop, tier, seed, repo, hs, ob_rows, discharged, violations, undecided, errors, notes, functions, interpreted,
                        solver_seconds, conc_runs, conc_distinct, samples, bounded_rows, fired, wall, extra)
     n_unb = sum(1 for o in ob_rows if o["kind"] == "unbounded")
